@@ -109,5 +109,14 @@ EXTRA_TEXT3 = {
 }
 for _k, _v in EXTRA_TEXT3.items():
     CHECKS[_k]["text"] += _v
+EXTRA_TEXT4 = {
+ "C02": " Wave 8: parse_deflate looks at its input through the reader only and leaves its block loop only on the final block (shared with C03).",
+ "C03": " Wave 8: parse_deflate uses the input slice for nothing but Cursor::new, leaves the block loop (other than by an error) only because the block read was final, and constructs no error of its own.",
+ "C04": " Wave 8: decisions taken directly on a boolean field are counted per field. Robustness: new private helpers are spliced into their callers before any rule runs; comparisons are counted as values (closures included); index/loop-bound mechanics, capacity hints and assertion machinery are not part of the signatures.",
+ "C05": " Wave 8: every overflow-checked + or * on an 8/16-bit value on the analysis path is bounded by inference or reviewed (this rule found the frequency-counter overflow, since repaired); partial std operations (division, remainder, ilog*) need a non-zero constant or a linear proof. A new assertion whose condition follows from the guards in force needs no review.",
+ "C06": " Wave 8: skip_gzip_header (helpers spliced in) constructs one error, the method-byte test.",
+}
+for _k, _v in EXTRA_TEXT4.items():
+    CHECKS[_k]["text"] += _v
 for _k, _v in NOTE_FIX.items():
     CHECKS[_k]["note"] = _v
